@@ -2,7 +2,7 @@
 """Generates MANIFEST.json from the table below (single source of truth for the interface)."""
 import json, subprocess
 
-HOOK_COMMITS = ['1c66e29b6', 'c5cd21b88', 'bb9f2e86a']
+HOOK_COMMITS = ['1c66e29b6', 'c5cd21b88', 'bb9f2e86a', 'cd646c92e']
 
 # id -> dict(claimed, level, technique, text, note, design_ref, engine, reason)
 P = {}
@@ -115,6 +115,18 @@ prop("C01", claimed=True, level="fault_enumeration", engine="E-CRASH (SimDirecto
      text="Histories run on the real IndexWriter over SimDirectory, which logs every create / write / flush / terminate / atomic write / delete / directory sync with its thread. For EVERY log prefix after index creation, crash images are enumerated from the durability model (data durable after terminate; atomic-write content durable, its rename pending; creations, renames, unlinks pending until the next directory sync): both extremes, all images within 2 deviations of them (per entry: any prefix of its pending operations; per un-synced inode: nothing / half / all but one byte / everything), every issue-order prefix of the pending operations, all 2^n subsets when n <= 8 (thorough 12) entries are pending. Each image must re-open, expose exactly the last returned commit or the commit in flight, validate the checksum of every referenced file, read no unreferenced file, and (once per canonical image) accept a new writer, two delete-only commits re-using the interrupted commit's opstamps, an add, a commit and a collection, after which a fresh open shows exactly the expected documents. Generated histories: all sequences of <= 3 (thorough 4) steps over {add, delete oldest, commit, rollback, merge all, collect, restart writer} closed by a commit, deviation bound 1.",
      note="The durability model is an assumption about the file system, bound to MmapDirectory by the conformance pass (strace of the same workloads: fdatasync before close for every terminate, fdatasync before rename for every atomic write, fsync of the directory for every sync_directory). Images are deduplicated by a canonical form (contents of meta.json and of the files it references; for the continuation also .managed.json and names of unreferenced delete files) whose soundness rests on recovery reading nothing else, which is asserted on every recovery. One writer configuration per designed history (1-2 workers, compressor thread on / off); crash points are operation boundaries, a torn single write is covered by the half / all-but-one content outcomes.",
      design_ref="3/C01")
+
+prop("C10", claimed=True, level="model_checking", engine="E-PREEMPT + E-SEQ + E-CRASH (SimDirectory, isolated workers)",
+     technique="exhaustive single-preemption exploration at storage-operation granularity (a collection / reader / writer restart forced in front of every storage operation of every thread of each scenario, on the real writer and reader over the simulated directory), bounded-exhaustive operation histories with a directory-exactness oracle, and crash-image enumeration followed by commit + collection",
+     text="(1) For every storage operation issued by the indexing workers, the compressor thread, merge threads and the caller while adds, deletes, commits and a merge run (one worker; segment cut after every document or not; thorough: compressor thread, two workers), the writer's real garbage collection is forced in front of that operation; for every storage operation of a reader reload (own and second Index handle) each of five writer-side actions (commit; merge + collect; emptying commit + collect; commit + merge + collect + drop writer; rollback + payload commit + collect) is forced; for every storage operation of a merge thread the writer is dropped and a new writer commits; for every storage operation of the writer side a new reader loads the index. No call and no open of a segment file may fail for a missing file, and after a closing commit + collection the directory must hold exactly the committed files plus meta.json / .managed.json with a matching managed list. (2) Every history of depth 3 (thorough 4-5) over the 15-operation C02 alphabet (adds, deletes, batches, delete-all, commits, prepared / aborted commits, rollbacks, merges, writer restarts) under cut-after-every-document and the eager merge policy, on SimDirectory: after every commit, awaited merges and a collection, directory exact and every committed file readable. (3) Every crash image of the C01 family (smaller bounds), recovered, followed by delete-only commits, an add, a commit and a collection: directory exact.",
+     note="One preemption per run, at the Directory seam; after the forced action threads run freely (the verdict must hold for any continuation). The collection cannot preempt the updater thread, on which it runs by construction. 48 of ~960 points park inside an in-memory critical section (the action waits 300 ms and proceeds afterwards); these are counted. Recorded finding: orphans after a crash when directory operations are persisted out of issue order.",
+     design_ref="3/C10")
+
+prop("C05", claimed=True, level="model_checking", engine="E-PREEMPT + E-SEQ (SimDirectory / RamDirectory, isolated workers)",
+     technique="exhaustive single-preemption exploration at storage-operation granularity of reader reloads against writer-side actions (and of merge threads against a writer restart, of the writer side against a loading reader), plus bounded-exhaustive operation histories with a long-lived reader reloaded after every operation and held searchers re-read at the end",
+     text="(1) A reader reload - on the writer's Index and on a second Index opened on the same directory - is preempted in front of each of its storage operations (meta.json read, meta-lock acquisition, every segment-file open) by each of five writer-side actions (commit; merge + collect; emptying commit + collect; commit + merge + collect + writer drop; rollback + payload commit + collect); every storage operation of a merge thread is preempted by writer drop + new writer + commit; every storage operation of the writer side by a new reader loading. The reload must succeed and show exactly one commit, not older than what the reader showed before; a further reload shows the last commit; the searcher held since before the action answers identically (ids, stored documents, fast field, term-query count, top-docs) after the collection deleted its files; the published state never moves back after a stale merge ends. (2) Every history of depth 3 (thorough 4-5) over the 15-operation C02 alphabet with one long-lived reader reloaded after EVERY operation: equal to a fresh open after a commit, unchanged after any other operation (no uncommitted work, no moving back), and one searcher held per published state re-read after the writer is gone and files are collected.",
+     note="One preemption per run at the Directory seam; the swap of the current searcher is a single arc-swap store and is not interleaved further. File bytes are served by SimDirectory / RamDirectory, which keep deleted data alive for open handles as MmapDirectory's mappings do.",
+     design_ref="3/C05")
 
 ALL = ["C%02d" % i for i in range(1, 21)]
 REASON_TODO = "check not built yet in this revision of /verif (design in DESIGN.md section 3); will be claimed when its engine lands"
